@@ -85,6 +85,8 @@ def main(argv):
     from . import harness, evidence
     try:
         items = mod.items(tier, seed)
+        from . import selfcheck
+        items = items + selfcheck.items(tier, seed, sre=getattr(mod, "USES_REGEX", False))
     except BaseException as e:
         import traceback
         traceback.print_exc()
